@@ -164,6 +164,10 @@ def schemas(tier):
         out += logical_schemas(inner)
         out += [{"type": "array", "items": s} for s in sc]
         out += [{"type": "object", "properties": {"a": s}} for s in sc]
+        # every ordered pair of scalar schemas under each combinator, and as two properties of one object
+        out += logical_schemas(sc)
+        for a, b in itertools.combinations(sc, 2):
+            out.append({"type": "object", "properties": {"a": a, "items": b}, "required": ["items"]})
     return out
 
 
@@ -287,7 +291,14 @@ def run_shard(shard, tier):
             if errs:
                 acc.outcomes["forbidden-value"] += 1
                 kw = sorted({e.validator for e in errs})
-                viol("emits-forbidden-" + ",".join(kw), f"returned {short(r, 60)} (JSON {json.dumps(enc)[:60]}) which the schema "
+                tag = ""
+                if isinstance(schema.get("allOf"), list) and len(schema["allOf"]) > 1:
+                    # sub-class of the recorded design-level finding: the conjunction converts in sequence, so what it
+                    # returns satisfies its last member although an earlier member does not accept that value
+                    ok = [jsonschema.Draft202012Validator(m).is_valid(enc) for m in schema["allOf"]]
+                    if ok[-1] and not all(ok[:-1]):
+                        tag = "@allof-last-member-wins"
+                viol("emits-forbidden-" + ",".join(kw) + tag, f"returned {short(r, 60)} (JSON {json.dumps(enc)[:60]}) which the schema "
                                                          f"forbids: {errs[0].message[:100]}", inst)
             else:
                 acc.outcomes["valid-value"] += 1
